@@ -132,6 +132,16 @@ func c02FilterRun(f []string) string {
 			return "panic"
 		}
 		return "ok " + Hex(out)
+	case "idx":
+		// idx <m|d> <pattern> <line>: the real matcher's index list (used by extra/C02.py to build `filt` cases)
+		if len(f) != 4 {
+			return "bad-args"
+		}
+		ix, ok := c02Indices(f[1], string(UnHex(f[2])), UnHex(f[3]))
+		if !ok {
+			return "bad-pattern"
+		}
+		return "ok " + c02IntsStr(ix)
 	case "vis":
 		b := string(UnHex(f[1]))
 		if !utf8.ValidString(b) {
